@@ -14,7 +14,7 @@ FIT = 'rsatoolbox.model.fitter.'
 def check_restriction(run, E):
     """fit_regress / fit_regress_nn: the model enters the fit ONLY through
     model.rdm_obj.subsample_pattern(pattern_descriptor, pattern_idx) (or the full rdm_obj when either is None), and the
-    data only through pool_rdm(data, method): the returned parameters are a function of these two (EUF non-interference)"""
+    data only through pool_rdm(data, method, sigma_k) -- pooled under the caller's sigma_k --: the returned parameters are a function of these two (EUF non-interference)"""
     E.schemas['ModelWeighted'] = {'rdm_obj': 'obj:RDMs', 'n_rdm': 'int', 'n_param': 'int'}
     E.func_ret['rsatoolbox.util.pooling.pool_rdm'] = 'RDMs'
     for fn in ('fit_regress', 'fit_regress_nn'):
@@ -26,7 +26,7 @@ def check_restriction(run, E):
                     kw = dict(method=method,
                               pattern_idx=E.sym_val('pattern_idx', tag='ndarray') if idx_case == 'given' else None,
                               pattern_descriptor=E.sym_val('pd', tag='scalar') if idx_case == 'given' else None,
-                              ridge_weight=E.sym_val('ridge'), sigma_k=None)
+                              ridge_weight=E.sym_val('ridge'), sigma_k=E.sym_val('sigma_k'))
                     return [E.sym_obj('model', 'ModelWeighted'), E.sym_obj('data', 'RDMs')], kw, []
 
                 def post(ck, E, args, kw, p, idx_case=idx_case):
@@ -37,7 +37,7 @@ def check_restriction(run, E):
                     sel = E.methods[('RDMs', 'subsample_pattern')](E, rdm_obj, kw['pattern_descriptor'], kw['pattern_idx']) \
                         if idx_case == 'given' else rdm_obj
                     fvp = E.find_function('rsatoolbox.util.pooling.pool_rdm')
-                    bound = E.bind_args(fvp.node, [data], dict(method=kw['method']), module=fvp.module)
+                    bound = E.bind_args(fvp.node, [data], dict(method=kw['method'], sigma_k=kw['sigma_k']), module=fvp.module)
                     pooled = E.app('rsatoolbox.util.pooling.pool_rdm', [bound[q] for q in bound], 'obj', cls='RDMs')
                     k1, k2 = z3.Const(fresh_name('SEL'), V), z3.Const(fresh_name('POOLED'), V)
                     rest = z3.substitute(term, (sel.term, k1), (pooled.term, k2))
